@@ -269,6 +269,29 @@ type probeCB struct {
 	mu        sync.Mutex
 	accepted  map[string]bool // remote address of accepted connections
 	shutdowns int
+	addr      string
+	drainCode int // result of the connect made inside the last OnShutdown: 0 refused, 1 established but not accepted, 2 accepted, 9 none
+}
+
+// probe connects to the listener and reports whether the connection was refused (0), established but not accepted by
+// this process (1: it sits in the kernel backlog), or accepted (2).
+func (p *probeCB) probe() int {
+	c, err := dialLocal(p.addr, 200*time.Millisecond)
+	if err != nil {
+		return 0
+	}
+	defer c.Close()
+	me := c.LocalAddr().String()
+	for w := 0; w < 12; w++ {
+		time.Sleep(5 * time.Millisecond)
+		p.mu.Lock()
+		acc := p.accepted[me]
+		p.mu.Unlock()
+		if acc {
+			return 2
+		}
+	}
+	return 1
 }
 
 func (p *probeCB) OnAccept(rawc net.Conn, _ bool, _ net.Addr, _ chan api.Connection, _ []byte, _ []api.ConnectionEventListener) {
@@ -280,8 +303,11 @@ func (p *probeCB) OnAccept(rawc net.Conn, _ bool, _ net.Addr, _ chan api.Connect
 func (p *probeCB) OnNewConnection(ctx context.Context, conn api.Connection) {}
 func (p *probeCB) OnClose()                                                 {}
 func (p *probeCB) OnShutdown() {
+	// this is the drain: the property says no new connection is accepted from here on
+	code := p.probe()
 	p.mu.Lock()
 	p.shutdowns++
+	p.drainCode = code
 	p.mu.Unlock()
 }
 func (p *probeCB) PreStopHook(ctx context.Context) func() error { return nil }
@@ -350,7 +376,7 @@ func c11Listener(run *Run) int {
 		addr := &net.TCPAddr{IP: net.ParseIP("127.0.0.1"), Port: port}
 		lc := &v2.Listener{ListenerConfig: v2.ListenerConfig{Name: fmt.Sprintf("vh-lis-%d", s), BindToPort: bind}, Addr: addr}
 		l := network.NewListener(lc)
-		cb := &probeCB{accepted: map[string]bool{}}
+		cb := &probeCB{accepted: map[string]bool{}, addr: addr.String(), drainCode: 9}
 		l.SetListenerCallbacks(cb)
 		n := 3 + r.Intn(4)
 		var ops []int
@@ -386,24 +412,17 @@ func c11Listener(run *Run) int {
 			}
 			time.Sleep(25 * time.Millisecond)
 			// probe
-			acc := false
-			c, err := dialLocal(addr.String(), 200*time.Millisecond)
-			if err == nil {
-				me := c.LocalAddr().String()
-				for w := 0; w < 12 && !acc; w++ {
-					time.Sleep(5 * time.Millisecond)
-					cb.mu.Lock()
-					acc = cb.accepted[me]
-					cb.mu.Unlock()
-				}
-				c.Close()
-			}
+			acc := cb.probe() == 2
 			cb.mu.Lock()
-			dr := cb.shutdowns
+			dr, dcode := cb.shutdowns, cb.drainCode
+			cb.drainCode = 9
 			cb.mu.Unlock()
 			hist = append(hist, opNames[o])
-			tr = append(tr, fmt.Sprintf("(%s, %s, %d%%nat)", opNames[o], CoqBool(acc), dr))
-			rep := map[string]interface{}{"part": "listener", "bind_port": bind, "history": append([]string{}, hist...), "accepted": acc, "on_shutdown_calls": dr}
+			tr = append(tr, fmt.Sprintf("(%s, %s, %d%%nat, %d%%N)", opNames[o], CoqBool(acc), dr, dcode))
+			rep := map[string]interface{}{"part": "listener", "bind_port": bind, "history": append([]string{}, hist...), "accepted": acc, "on_shutdown_calls": dr, "connect_inside_OnShutdown": dcode}
+			if bind && o == 2 && (dcode == 1 || dcode == 2) {
+				run.Fail("listener:connect-not-refused-while-draining", fmt.Sprintf("graceful stop: a connect made while OnShutdown (the drain) was running was %s instead of refused (history %v)", map[int]string{1: "established into the backlog of a socket nobody accepts from", 2: "accepted"}[dcode], hist), rep)
+			}
 			if bind && acc && afterStop {
 				run.Fail("listener:accepted-after-graceful-stop", fmt.Sprintf("a connection was accepted after Shutdown (history %v)", hist), rep)
 			}
